@@ -9,6 +9,11 @@ res = json.load(open(out_path)) if os.path.exists(out_path) else {}
 for n in names:
     d = '/verif/seeded/' + n
     meta = json.load(open(d + '/meta.json'))
+    if meta.get('status') == 'neutralised':
+        res[n] = {"checks": {}, "caught_by": [], "neutralised": meta.get('status_note', '')}
+        json.dump(res, open(out_path, 'w'), indent=1)
+        print(n, "neutralised", flush=True)
+        continue
     props = extra.get(n, [meta['property']])
     p = subprocess.run(['python3', '/verif/tools/seedcheck.py', d, '--props', ','.join(props)], capture_output=True, text=True)
     try:
